@@ -39,6 +39,13 @@ def run(tier):
     chk.floor("ComplexField forwarding items", chk.analysed.get("ComplexField forwarding items", 0), 4 * 6)
     from . import c17
     c17.python_wrappers(chk, {"powi", "powf", "powd", "sqrt", "cbrt", "recip"})
+    # the items above are compositions of the operator / compound-assignment / iterator forms of the dual types and, for the vector types,
+    # of the derivative container's operations (a clean-up may switch from `a * b` to `a *= b`, from a loop to `.sum()`, from `1/x` to
+    # `inv()`): every such form is the truncated-algebra operation on every path and for every presence pattern (rule sets of C08 / C07)
+    from . import container, c08
+    container.check_L1(chk, F)
+    for ty in TYPES:
+        c08.check_type(chk, F, ty, thorough=False)
     chk.floor("powi bodies range-analysed", chk.analysed.get("powi bodies range-analysed", 0), 8)
     chk.floor("end-to-end evaluations", chk.analysed.get("end-to-end evaluations", 0), 8 * 10)
     return chk.finish()
